@@ -378,8 +378,11 @@ fn run_dyn(prog: &Value, out: &Emit) {
                     let before = w.dlen();
                     ev["off"] = json!(before);
                     let p = w.pay(op);
+                    // the caller names the object by its content key (MD5 of the data); the container stores it
+                    // under the encoding key it computes itself
+                    let ckey: [u8; 16] = md5::compute(&p.data).0;
                     let r = match &w.cont {
-                        Some(c) => unit(w.rt.block_on(c.write(&p.key, &p.data))),
+                        Some(c) => unit(w.rt.block_on(c.write(&ckey, &p.data))),
                         None => dead,
                     };
                     let end = w.dlen();
